@@ -194,9 +194,7 @@ Proof.
     + (* CallList *)
       destruct (m_args (meval defs n sc tb) args [] st) as [[o|vs] st1] eqn:E; inv H;
         eapply m_args_frame; eauto; exact I.
-    + (* Progn *)
-      destruct (m_args (meval defs n sc tb) body [] st) as [[o|vs] st1] eqn:E; inv H;
-        eapply m_args_frame; eauto; exact I.
+    + (* Progn *) eapply m_seq_frame; eauto.
     + (* When *)
       destruct (meval defs n sc tb f st) as [o st1] eqn:E. destruct o; try solve [inv H; eapply IH; eauto].
       assert (X : ext st st1) by (eapply IH; eauto with c07).
